@@ -115,7 +115,10 @@ def applyT (S : Spec) (s : State) : TEv → Option State
     match step S s .exStart with
     | some s' => some (settle S (s'.buffer.length + 2) s')
     | none => none
-  | .silence => step S s .silence
+  | .silence =>
+    -- the real `can_continue()` may over-approximate (C13_canContinue_sound_partial): the code then waits the
+    -- 1 s out after a parse the model already finished; that silence changes nothing
+    if s.ex.isNone && live s then some s else step S s .silence
   | .unexpected => step S s .unexpected
   | .nomessage => step S s .noMessage
   | .done => step S s .finishRun
@@ -142,13 +145,27 @@ def jState (s : State) (stuck : Option Nat) : Json :=
     ("extracting", Json.bool s.ex.isSome),
     ("stuck", match stuck with | some k => Json.num (JsonNumber.fromNat k) | none => Json.null)]
 
-def replay (T : Tables) (S : Spec) : Nat → State → List TEv → Except String (State × Option Nat)
-  | _, s, [] => return (s, none)
-  | k, s, ev :: evs =>
+/-- `want` = parse_next_remote_packet has been entered but no buffered fragment's sender is in the
+    forecast yet (the 10 s wait): `exStart` is retried after every arrival -/
+def replay (T : Tables) (S : Spec) : Nat → Bool → State → List TEv → Except String (State × Option Nat)
+  | _, _, s, [] => return (s, none)
+  | k, want, s, ev :: evs =>
     if !known T s && live s then throw s!"no forecast given for the history of length {s.history.length}"
-    else match applyT S s ev with
-      | some s' => replay T S (k + 1) s' evs
-      | none => return (s, some k)
+    else match ev, want with
+      | .extract, _ =>
+        match applyT S s .extract with
+        | some s' => replay T S (k + 1) false s' evs
+        | none => if live s && s.ex.isNone && s.buffer != [] then replay T S (k + 1) true s evs else return (s, some k)
+      | .recv p r d, true =>
+        match applyT S s (.recv p r d) with
+        | some s1 => match applyT S s1 .extract with
+          | some s2 => replay T S (k + 1) false s2 evs
+          | none => replay T S (k + 1) true s1 evs
+        | none => return (s, some k)
+      | ev, w =>
+        match applyT S s ev with
+        | some s' => replay T S (k + 1) w s' evs
+        | none => return (s, some k)
 
 def handle (j : Json) : Except String Json := do
   let fc ← (← arrOf j "forecast").mapM (fun e => do
@@ -169,7 +186,7 @@ def handle (j : Json) : Except String Json := do
   let tr ← (← arrOf j "trace").mapM tevOf
   let T : Tables := ⟨fc, dn, fz, ty, fb⟩
   let S := specOf T
-  let (s, stuck) ← replay T S 0 init tr
+  let (s, stuck) ← replay T S 0 false init tr
   if s.history.any (fun m => m.type == "?missing") then throw "a forecast was missing"
   return jState s stuck
 
